@@ -245,6 +245,85 @@ def o_integrity(ctx, case):
     return None
 
 
+def _answers(lt, ts, wins, us):
+    """every query of the property on one object, canonicalised (exceptions by class name)"""
+    out = []
+
+    def call(f):
+        try:
+            r = f()
+            return np.asarray(r, dtype=np.float64).ravel().tolist() if not isinstance(r, (bool, np.bool_)) else bool(r)
+        except Exception as e:  # noqa
+            return 'EXC:' + type(e).__name__
+    out.append(call(lambda: lt.is_on(np.array(ts))))
+    out.append([call(lambda t=t: lt.get_livetime_upto(t)) for t in ts])
+    out.append([call(lambda w=w: lt.get_uptime_intervals_between(*w)) for w in wins])
+    out.append(call(lambda: lt.livetime))
+    out.append(call(lambda: lt.time_window))
+    for w in [(None, None)] + list(wins):
+        out.append(call(lambda w=w: lt.draw_ontimes(_StubRSS(us), len(us), t_min=w[0], t_max=w[1])))
+    return out
+
+
+def o_history(ctx, case):
+    """One Livetime object through a history of [queries, assign new intervals (public setter), queries, …]:
+    every answer must be the answer of a freshly constructed object holding the current intervals."""
+    sets, ts, wins, us = case['sets'], case['ts'], case['wins'], case['us']
+    lt = mk(sets[0])
+    for k, ivs in enumerate(sets):
+        if k > 0:
+            lt.uptime_mjd_intervals_arr = np.array(ivs, dtype=np.float64).reshape((-1, 2))
+        for rep in range(2):
+            used = _answers(lt, ts, wins, us)
+            fresh = _answers(mk(ivs), ts, wins, us)
+            if repr(used) != repr(fresh):
+                for a, b, name in zip(used, fresh, ['is_on', 'get_livetime_upto', 'get_uptime_intervals_between', 'livetime', 'time_window'] + ['draw_ontimes'] * 99):
+                    if repr(a) != repr(b):
+                        return ('after %d assignment(s) of new up-time intervals (now %r, before %r) %s answers %r, a fresh Livetime '
+                                'on the same intervals answers %r' % (k, ivs, sets[k - 1] if k else None, name, a, b))
+    return None
+
+
+def o_alias(ctx, case):
+    """Arrays handed out by the window query / the data subset are the caller's: writing into them must not change the
+    Livetime they came from (no view of the internal interval array is returned)."""
+    from skyllh.core.dataset import DatasetData, get_data_subset
+    from skyllh.core.storage import DataFieldRecordArray
+    ivs, wins, ts = case['ivs'], case['wins'], case['ts']
+    for w in wins:
+        lt = mk(ivs)
+        before = _answers(lt, ts, [], [0.25])
+        try:
+            res = lt.get_uptime_intervals_between(*w)
+        except Exception:  # noqa
+            continue
+        if isinstance(res, np.ndarray) and res.size:
+            try:
+                res[...] = res + 1e3
+            except ValueError:
+                pass
+        after = _answers(lt, ts, [], [0.25])
+        if repr(before) != repr(after):
+            return 'writing into the array returned by get_uptime_intervals_between%r changed the answers of the Livetime on %r' % (tuple(w), ivs)
+        lt = mk(ivs)
+        exp = DataFieldRecordArray({'time': np.array(ts, dtype=np.float64)}, copy=True)
+        data = DatasetData(data_exp=exp, data_mc=exp.copy(), livetime=lt.livetime)
+        try:
+            (sub, ltsub) = get_data_subset(data, lt, *w)
+        except Exception:  # noqa
+            continue
+        arr = ltsub.uptime_mjd_intervals_arr
+        if arr.size:
+            try:
+                arr[...] = arr + 1e3
+            except ValueError:
+                pass
+        after = _answers(lt, ts, [], [0.25])
+        if repr(before) != repr(after):
+            return 'editing the Livetime of the data subset for window %r changed the original Livetime on %r' % (tuple(w), ivs)
+    return None
+
+
 # ---- correspondence relations (model vs implementation), usable for replay as well
 
 def _impl_between(ivs, t0, t1):
@@ -313,7 +392,7 @@ def _corr_compare(case, impl, model):
 
 ORACLES = {
     'is_on': o_is_on, 'between': o_between, 'upto': o_upto, 'draw': o_draw, 'subset': o_subset,
-    'integrity': o_integrity, 'corr': o_corr,
+    'integrity': o_integrity, 'corr': o_corr, 'history': o_history, 'alias': o_alias,
 }
 
 # which property oracle looks at the same behaviour as a correspondence kind
@@ -409,6 +488,22 @@ def run(ctx):
             k = rng.randrange(len(edges) - 1)
             edges[k], edges[k + 1] = edges[k + 1], edges[k]
         oracle_cases.append(('integrity', {'edges': edges}))
+        # histories on one object (public setter between query rounds) and aliasing of handed-out arrays
+        if rng.random() < ctx.n(0.5, 0.5):
+            sets = [ivs] + [gen_intervals(rng, n=rng.choice([1, 2, 3, len(ivs)])) for _ in range(rng.choice([1, 2]))]
+            if rng.random() < 0.3:
+                sets.append(ivs)
+            hts = rng.sample(ts, min(len(ts), 6))
+            for other in sets[1:]:
+                hts += [x for p in other for x in p][:4]
+            lo_all = min(x for ss in sets for p in ss for x in p)
+            hi_all = max(x for ss in sets for p in ss for x in p)
+            hw = [(float('-inf'), float('inf')), (lo_all, hi_all)]
+            for _ in range(2):
+                a_, b_ = sorted([rng.choice(hts), rng.choice(hts)])
+                hw.append((a_, b_))
+            oracle_cases.append(('history', {'sets': sets, 'ts': hts, 'wins': hw, 'us': [0.0, 0.3, 0.77]}))
+            oracle_cases.append(('alias', {'ivs': ivs, 'wins': hw, 'ts': hts}))
 
     # ---- correspondence (batched through one driver process)
     reqs, impls = [], []
